@@ -110,12 +110,41 @@ def run(ctx):
     run_case(ctx, ser(dict(kind="pair", label="perturbed", A=dict(U=U, P=A["P"], W=[F(1), F(2)]), B=dict(U=U, P=A["P"], W=[F(1), F(3)]))))
     run_case(ctx, ser(dict(kind="noncurve", label="noncurve", A=A)))
     labels = ["refined", "elevated", "refined+elevated", "perturbed", "perturbed-refined", "scaled-weights", "const-weights",
-              "unrelated", "interval", "same"]
+              "unrelated", "interval", "same", "shared-weights", "shared-weights", "unrelated-rational"]
     for i in range(budget(ctx, 80, 1000)):
         label = rng.choice(labels)
         U, P, W = rand_curve(rng, pmax=3 if label in ("same", "perturbed", "unrelated") else 2, nintmax=2, force_zero=(i % 8 == 0))
         if W is not None and kv_info(U)[0] > 2:
             W = None
+        if label == "shared-weights":
+            # two rational curves with the *same* weight tuple and the same weighted numerator (a constant) on different knot
+            # vectors with the same number of control points: the denominators differ, so the functions differ
+            p_ = rng.randint(1, 2)
+            n_ = p_ + 1 + rng.randint(1, 2)
+            iv = rand_interval(rng)
+            def kv_n(deg):
+                inner = sorted(rng.sample(GRID, n_ - deg - 1))
+                return [iv[0]] * (deg + 1) + [iv[0] + (iv[1] - iv[0]) * x for x in inner] + [iv[1]] * (deg + 1)
+            U = kv_n(p_)
+            U2 = kv_n(p_ if rng.random() < 0.6 else p_ + 1 if n_ > p_ + 2 else p_)
+            if U2 == U:
+                continue
+            W = [F(rng.randint(1, 9), rng.randint(1, 3)) for _ in range(n_)]
+            if len(set(W)) == 1:
+                W[0] += 1
+            cst = rand_rat(rng) or F(1)
+            P = [(cst / w,) for w in W]
+            run_case(ctx, ser(dict(kind="pair", label=label, A=dict(U=U, P=P, W=W), B=dict(U=U2, P=P, W=W))))
+            continue
+        if label == "unrelated-rational":
+            U = rand_kv(rng, pmax=2, nintmax=1)
+            U2 = rand_kv(rng, pmax=2, nintmax=1, interval=(U[0], U[-1]))
+            n1, n2 = kv_info(U)[1], kv_info(U2)[1]
+            d_ = rng.choice([1, 2])
+            A_ = dict(U=U, P=rand_points(rng, n1, d_), W=rand_weights(rng, n1, "pos"))
+            B_ = dict(U=U2, P=rand_points(rng, n2, d_), W=rand_weights(rng, n2, rng.choice(["pos", "none"])))
+            run_case(ctx, ser(dict(kind="pair", label=label, A=A_, B=B_)))
+            continue
         if label == "unrelated":
             U2 = rand_kv(rng, pmax=2, nintmax=2, interval=(U[0], U[-1]))
             B = (U2, rand_points(rng, kv_info(U2)[1], len(P[0])), None)
@@ -126,4 +155,5 @@ def run(ctx):
         else:
             B = variant(rng, U, P, W, label)
         run_case(ctx, ser(dict(kind="pair", label=label, A=dict(U=U, P=P, W=W), B=dict(U=B[0], P=B[1], W=B[2]))))
-    run_case(ctx, ser(dict(kind="noncurve", label="noncurve", A=dict(U=U, P=P, W=W))))
+    U0, P0, W0 = rand_curve(rng, pmax=2, nintmax=2, weights="pos")
+    run_case(ctx, ser(dict(kind="noncurve", label="noncurve", A=dict(U=U0, P=P0, W=W0))))
